@@ -527,7 +527,7 @@ Qed.
 (* ------------------------------------------------------------------ *)
 (* witnesses (operators taken from the regenerated table)               *)
 (* ------------------------------------------------------------------ *)
-Open Scope string_scope.
+Local Open Scope string_scope.
 Definition w_one : op := table_op "valueOpType" (str_of_string "1").
 Definition w_two : op := table_op "valueOpType" (str_of_string "2").
 Definition w_three : op := table_op "valueOpType" (str_of_string "3").
